@@ -272,6 +272,9 @@ type Transport struct {
 	buf    [512]byte
 	// Scenario tag mixed into state hashes.
 	Tag string
+	// Yield, if set, is called at the entry and exit of every Send so a
+	// controlled scheduler can interleave other threads there.
+	Yield func(where string)
 	// SleepQuantum, if non-zero, is charged for every back-off sleep instead
 	// of the (jittered, hence nondeterministic) duration the library asked for.
 	SleepQuantum time.Duration
@@ -315,6 +318,10 @@ func (t *Transport) queueHash() uint64 {
 var ErrNotDescendant = errors.New("per-attempt context is not derived from the caller's context")
 
 func (t *Transport) Send(ctx context.Context, b []byte) ([]byte, error) {
+	if t.Yield != nil {
+		t.Yield("transport.Send entry")
+		defer t.Yield("transport.Send exit")
+	}
 	ex := &Exchange{Req: append([]byte{}, b...), Op: t.Op, Attempt: t.Attempt}
 	t.Attempt++
 	t.Log = append(t.Log, ex)
